@@ -196,7 +196,12 @@ TStubRet ==
                  /\ ErrDetailsOK(Ev.errdetails)
                  /\ (out.tag = "ctx") => Ev.cause = out.cause
        [] sc.kind = "rpc" ->
-            /\ pc = "returned" /\ endSeen /\ Ev.tag = (IF out.tag = "reply" THEN (IF out.err THEN "err" ELSE "ok") ELSE out.tag)
+            /\ pc = "returned" /\ endSeen
+            \* the node's "reply" may be the caller's own context error (the request
+            \* was answered by enqueue or by the sender because the context had
+            \* ended): the stub then returns that context error
+            /\ \/ Ev.tag = (IF out.tag = "reply" THEN (IF out.err THEN "err" ELSE "ok") ELSE out.tag)
+               \/ out.tag = "reply" /\ out.err /\ Ev.tag = "ctx" /\ ctx # "live" /\ Ev.cause = ctx
             /\ (out.tag = "ctx") => Ev.cause = out.cause
        [] OneWay -> pc = "returned" /\ endSeen
        [] OTHER -> TRUE
